@@ -82,6 +82,31 @@ def _pass(types, defs, seed, junk_per_type):
     return events, meta
 
 
+def opt_pass(profile: str, seed: int):
+    """Run in an interpreter started with -O (assert statements compiled away, __debug__ False): the fixed-tuple and
+    structured types of the universe once more.  What a routine rejects it rejects in every interpreter mode."""
+    defs, types, _ = vs.universe(profile)
+    sub = [T for T in types if '"tup"' in json.dumps(T) or T["k"] == "cls"][:160]
+    ev, me = _pass(sub, defs, seed, 6)
+    return {"events": ev, "meta": me, "optimized": not __debug__}
+
+
+def _opt_child(profile: str, seed: int):
+    import subprocess
+    import sys
+    verif = __file__.rsplit("/harness/", 1)[0]
+    code = (f"import sys, json; sys.path.insert(0, {verif!r}); from harness.drivers import c03; "
+            f"print('@@OPT@@' + json.dumps(c03.opt_pass({profile!r}, {seed})))")
+    p = subprocess.run([sys.executable, "-O", "-B", "-c", code], capture_output=True, text=True, timeout=1800)
+    line = next((ln for ln in p.stdout.splitlines() if ln.startswith("@@OPT@@")), None)
+    if line is None:
+        raise tlc.MachineryError("optimised-interpreter pass failed: " + (p.stderr or p.stdout)[-400:])
+    out = json.loads(line[7:])
+    if not out["optimized"]:
+        raise tlc.MachineryError("the -O child did not run optimised")
+    return out
+
+
 def collect(ctx: Ctx, profile: str, junk_per_type: int | None):
     """The universe in order in this process and, concurrently, in two other orders in forked processes that have
     not called typelib yet (reverse; class-free types first and variadic before fixed tuples): routines that share build-time state (handler
@@ -117,6 +142,9 @@ def collect(ctx: Ctx, profile: str, junk_per_type: int | None):
             raise tlc.MachineryError(f"{oname}-order process failed: " + child["error"])
         events += child["events"]
         meta += [tuple(m) + (oname,) for m in child["meta"]]
+    opt = _opt_child(profile, ctx.seed + 7)
+    events += opt["events"]
+    meta += [tuple(m) + ("python -O",) for m in opt["meta"]]
     return events, meta, model, len(types)
 
 
